@@ -103,6 +103,11 @@ def parsePidTok (s : String) : Pid := ⟨s, ""⟩   -- opaque token
 
 def hostileCase (inp impl : String) : CaseOut :=
   let ws := words inp
+  -- raw=<hex>: crafted wire bytes with length prefixes at the edge of the integer range: the envelope decoder rejects them
+  -- (the reader never sees them; `C16.outcome_total` is about decoded envelopes); whatever it answers, it must not panic
+  if (kv ws "raw").isSome then
+    { model := impl, spec := if (impl.splitOn "panic").length > 1 then "FAIL:panic in the envelope decoder: " ++ impl else "ok",
+      tags := ["raw-bytes", if impl = "out=rejected" then "raw.rejected" else "raw.decoded"], nontrivial := true } else
   let dots (k : String) : List String := match kv ws k with
     | some s => if s = "" then [] else s.splitOn "."
     | none => []
